@@ -1,7 +1,126 @@
-(* Properties/C07.v — placeholder while the model is being validated. *)
+(* Properties/C07.v — A cluster is one data space: write via any node, read via any node.
+   Only statements, each closed by [exact] (short glue allowed), each followed by Print Assumptions.
+   The model (Core/Dist.v) covers the routing of the distribution layer: a channel's leaseholder is
+   part of its key, every writer names its gateway, per-node stores map keys to committed samples
+   and what a channel's own storage iterator answers is a parameter. *)
 From stdpp Require Import gmap.
 From Coq Require Import NArith.
-From Synnax Require Import Core.Dist.
-Theorem C07_stub : iter_open [] [] = IEmptyKeys.
-Proof. reflexivity. Qed.
-Print Assumptions C07_stub.
+From Synnax Require Import Generated.Consts_C15 Core.Channel Core.Dist Core.DistProofs Core.DistRefine Core.DistSync.
+Local Open Scope N_scope.
+Notation length := List.length.
+
+(* (1) The frame splitters partition a frame: each part is exactly the sub-sequence of the
+   entries leased to that host / node / nobody — nothing lost, nothing duplicated, the relative
+   order (also between several series of one key) kept. *)
+Theorem C07_split_partition : forall host f,
+  split_by_host host f =
+    (sel (at_node host) f, sel (is_remote host) f, sel (fun e => negb (at_node host e) && is_free_key e.1) f) /\
+  (forall n, default [] (split_by_leaseholder f !! n) = sel (at_node n) f).
+Proof. intros host f. split; [apply split_by_host_spec|intros n; apply split_by_leaseholder_spec]. Qed.
+Print Assumptions C07_split_partition.
+
+(* (2) One write request through any gateway with any set of writer keys: every leaseholder
+   receives exactly its own entries in frame order, and nothing that is not its own. *)
+Theorem C07_route_exact : forall gw keys f n,
+  forallb (fun e => memb e.1 keys) f = true -> n <> node_free ->
+  default [] (route gw keys f !! n) = sel (at_node n) f /\
+  (forall m e, e ∈ default [] (route gw keys f !! m) -> lease_of e.1 = m).
+Proof. intros gw keys f n Hv Hn. split; [apply route_spec; assumption|intros m e; apply route_only]. Qed.
+Print Assumptions C07_route_exact.
+
+(* (3) Location transparency of writes, for ALL placements (any keys), ALL gateways (any OpenW),
+   ALL scripts (opens, frames mixing local / remote / free channels, explicit and automatic commits,
+   closes, rejected requests): every request gets the same result as on a single store, every
+   leased channel's leaseholder holds exactly the samples the single store holds, and no other
+   node holds any sample of it. *)
+Theorem C07_location_transparent : forall chans ops,
+  let c := drun (Cluster chans ∅ ∅) ops in
+  let s := srun (Single chans ∅ ∅) ops in
+  (forall k, is_free_key k = false -> cluster_read c k = single_read s k) /\
+  (forall n k, n <> lease_of k -> stray c n k = []) /\
+  dresults (Cluster chans ∅ ∅) ops = sresults (Single chans ∅ ∅) ops.
+Proof. exact location_transparent. Qed.
+Print Assumptions C07_location_transparent.
+
+Theorem C07_step_refines : forall c s o,
+  crel c s -> (dstep c o).2 = (sstep s o).2 /\ crel (dstep c o).1 (sstep s o).1.
+Proof. exact dstep_refines. Qed.
+Print Assumptions C07_step_refines.
+
+(* (4) Unknown channels: a writer naming a key that is not in cluster metadata does not open and
+   changes nothing; an iterator naming such a key, or a free channel, does not open. *)
+Theorem C07_unknown_channel_fails : forall c id gw keys auto chans k,
+  k ∈ keys ->
+  (~ k ∈ cl_chans c -> dstep c (OpenW id gw keys auto) = (c, DMissing)) /\
+  ((~ k ∈ chans \/ is_free_key k = true) -> iter_open chans keys <> IOk).
+Proof.
+  intros c id gw keys auto chans k Hin. split.
+  - intros H. eapply open_writer_unknown; eassumption.
+  - intros H. eapply open_iterator_unknown; eassumption.
+Qed.
+Print Assumptions C07_unknown_channel_fails.
+
+(* (5) Commit acknowledgement: of the n responses of one sequence number, the synchronizer
+   forwards nothing for the first n-1 and exactly one response on the n-th — the writer's Commit
+   returns only after every involved leaseholder has answered. (Both synchronizer variants.) *)
+Theorem C07_commit_ack_after_all : forall fixed n q rs,
+  q <> 0 -> length rs = n -> rs <> [] -> Forall (fun r => wr_seq r = q) rs ->
+  wsync_run fixed n wsync0 rs =
+  replicate (n - 1) None ++ [Some (if fixed then wsync_acc rs else default (WResp 0 false 0 true) (last rs))].
+Proof. exact wsync_cycle. Qed.
+Print Assumptions C07_commit_ack_after_all.
+
+(* what the synchronizer accumulates: authorized iff every leaseholder was; End is the largest
+   End of the commits *)
+Theorem C07_commit_ack_accumulates : forall r rs,
+  wr_auth (wsync_acc (r :: rs)) = forallb wr_auth (r :: rs) /\
+  (Forall (fun r => wr_commit r = true) rs -> wr_end (wsync_acc (r :: rs)) = foldl N.max (wr_end r) (wr_end <$> rs)).
+Proof. intros r rs. split; [apply wsync_acc_auth; discriminate|apply wsync_acc_end]. Qed.
+Print Assumptions C07_commit_ack_accumulates.
+
+(* ... but the writer synchronizer of the tree forwards the LAST response instead: End and
+   Authorized of the acknowledgement are those of whichever leaseholder answered last (observed on
+   the implementation too; outside the property's statement, left as it is). *)
+Theorem C07_commit_ack_end_refuted :
+  wsync_run false 2 wsync0 [WResp 1 true 18 true; WResp 1 true 12 false] = [None; Some (WResp 1 true 12 false)] /\
+  wsync_run false 2 wsync0 [WResp 1 true 12 false; WResp 1 true 18 true] = [None; Some (WResp 1 true 18 true)] /\
+  wsync_run true 2 wsync0 [WResp 1 true 12 false; WResp 1 true 18 true] = [None; Some (WResp 1 true 18 false)].
+Proof. exact wsync_last_refuted. Qed.
+Print Assumptions C07_commit_ack_end_refuted.
+
+(* (6) Reads. Whatever the channels' own storage iterators answer, for every placement and every
+   command the cluster iterator (current tree: acknowledgements OR-ed) returns the same entries
+   (as a multiset, each exactly once) and the same acknowledgement as ONE storage iterator over all
+   the channels; and its synchronizer forwards exactly one acknowledgement per command, after all
+   nodes answered, carrying the disjunction. *)
+Theorem C07_iterator_location_transparent : forall (ans : chan_answers) keys i,
+  (cluster_iter true ans keys i).1 ≡ₚ (store_iter ans keys i).1 /\
+  (cluster_iter true ans keys i).2 = (store_iter ans keys i).2.
+Proof. exact cluster_iter_transparent. Qed.
+Print Assumptions C07_iterator_location_transparent.
+
+Theorem C07_iterator_ack_after_all : forall n q rs,
+  length rs = n -> rs <> [] -> Forall (fun r => ir_seq r = q /\ ir_data r = false) rs ->
+  isync_run true n isync0 rs = replicate (n - 1) None ++ [Some (IResp false q (existsb ir_ack rs))].
+Proof. exact isync_cycle. Qed.
+Print Assumptions C07_iterator_ack_after_all.
+
+(* The pinned upstream tree (finding F15, fixed by f216f1f): the conjunction it accumulated ends a
+   traversal when the shorter node runs dry, and what it forwarded was the last node's answer. *)
+Theorem C07_iterator_upstream_refuted :
+  (cluster_iter false w_ans [new_key 1 2; new_key 2 2] 0).2 = false /\
+  (store_iter w_ans [new_key 1 2; new_key 2 2] 0).2 = true /\
+  isync_run false 2 isync0 [IResp false 3 true; IResp false 3 false] = [None; Some (IResp false 3 false)] /\
+  isync_run true 2 isync0 [IResp false 3 true; IResp false 3 false] = [None; Some (IResp false 3 true)].
+Proof. exact cluster_iter_and_refuted. Qed.
+Print Assumptions C07_iterator_upstream_refuted.
+
+(* Non-vacuity: three nodes, a writer opened on node 2 which holds none of its channels, frames
+   mixing channels of node 1, node 3 and a free channel, a frame that skips node 1, an uncommitted
+   write lost at close, an open on an unknown key refused, an auto-commit writer through node 3. *)
+Example C07_nonvacuous :
+  let c := drun (Cluster x_chans ∅ ∅) x_ops in
+  cluster_read c x_t1 = [10; 11; 20] /\ cluster_read c x_d1 = [5; 6; 8] /\
+  cluster_read c x_d3 = [1; 2; 3] /\ stray c 2 x_t1 = [] /\ stray c 3 x_d1 = [] /\
+  dresults (Cluster x_chans ∅ ∅) x_ops = [DOk; DOk; DOk; DAck; DOk; DOk; DMissing; DOk; DOk].
+Proof. exact x_facts. Qed.
